@@ -41,6 +41,15 @@
 (* the request is being served.  A validated request that is not the mapping's listen client     *)
 (* sits in handleTargetBridge -> handleCrossNodeTargetConnection -> lookupTunnelRouting (polls   *)
 (* up to 10 s): action PollFound, with the mapping comparison as its explicit first step.        *)
+(* Mapping states beyond the statement's list: "error" (models.MappingStatusError) and           *)
+(* "suspended" (a free-form status stored through UpdatePortMappingStatus) - every status other  *)
+(* than "active" makes PortMapping.IsValid() false.                                              *)
+(* Mapping shape: "std" (listen client L, target client T), "noListen" (ListenClientID = 0:      *)
+(* server-ingress / HTTP-domain mappings), "noTarget" (TargetClientID = 0).  Client ids are      *)
+(* modelled ("0" = the id of a connection that never authenticated) because the code compares    *)
+(* ids: 0 = 0 would make an unauthenticated connection "the listen client" of a noListen        *)
+(* mapping - what stops it is the client-id check at the top of HandleTunnelOpen (MUT =          *)
+(* {"authLast"} models a tree where that check only guards the no-credentials branch).          *)
 (* Credential "otherSecret": id + secret of a third mapping M3 whose TARGET client is the        *)
 (* stranger - valid credentials that pass the validation and do not make the presenter a source. *)
 EXTENDS Naturals, Sequences, FiniteSets, TLC, Json
@@ -48,7 +57,9 @@ EXTENDS Naturals, Sequences, FiniteSets, TLC, Json
 CONSTANTS FIXES,     \* see above
           Idents,    \* subset of {"none", "noneHs", "listen", "target", "stranger"}
           Creds,     \* subset of {"idOnly", "rightSecret", "wrongSecret", "resume", "nothing", "otherId", "otherSecret"}
-          MStates,   \* subset of {"active", "revoked", "expired", "inactive", "missing"}
+          MStates,   \* subset of {"active", "revoked", "expired", "inactive", "error", "suspended", "missing"}
+          Shapes,    \* subset of {"std", "noListen", "noTarget"} (non-std: tunnel state "none" only)
+          MUT,       \* seeded deviations the model can express ({} = the tree): "authLast"
           TStates,   \* subset of {"none", "waiting", "served", "remote", "lateLocal", "lateRemote"}
           Orders,    \* subset of {"legitFirst", "reqFirst"}
           Masked,    \* BOOLEAN: invariants hold "or a named deviation fired" (as-found tree)
@@ -86,8 +97,12 @@ Pres(p) == IF p.cred = "otherId" THEN "M2" ELSE IF p.cred = "otherSecret" THEN "
 
 MExists(m)     == m \in {"M2", "M3"} \/ (m = "M" /\ mst # "missing")
 MValid(m)      == m \in {"M2", "M3"} \/ (m = "M" /\ mst = "active")     \* PortMapping.IsValid
-IsListen(i, m) == (m = "M" /\ i = "listen") \/ (m = "M2" /\ i = "stranger")
-IsTarget(i, m) == (m = "M" /\ i = "target") \/ (m = "M3" /\ i = "stranger")
+\* client ids: of a connection (0 until the key is proven) and of the mappings' parties
+Cid(i) == CASE i \in {"none", "noneHs"} -> "0" [] i = "listen" -> "L" [] i = "target" -> "T" [] i = "stranger" -> "X"
+LId(m) == CASE m = "M" -> (IF cell.shape = "noListen" THEN "0" ELSE "L") [] m = "M2" -> "X" [] m = "M3" -> "X2" [] OTHER -> "?"
+TId(m) == CASE m = "M" -> (IF cell.shape = "noTarget" THEN "0" ELSE "T") [] m = "M2" -> "X2" [] m = "M3" -> "X" [] OTHER -> "?"
+IsListen(i, m) == Cid(i) = LId(m)        \* mapping.ListenClientID == clientID
+IsTarget(i, m) == Cid(i) = TId(m)        \* mapping.TargetClientID == clientID
 
 HasCtl(i) == i # "none"                                  \* a handshake registered a control connection
 Authd(i)  == i \in {"listen", "target", "stranger"}      \* ... and the key was proven (client id set)
@@ -97,7 +112,7 @@ Validate(p) ==
   LET m == Pres(p) IN
   /\ HasCtl(p.id)                      \* else "connection not found or not authenticated"
   /\ p.cred # "resume"                 \* resumeTunnel: cloud control offers no ValidateTunnelResumeToken
-  /\ Authd(p.id)                       \* conn.GetClientID() = 0 -> "client not authenticated"
+  /\ (Authd(p.id) \/ ("authLast" \in MUT /\ p.cred # "nothing"))   \* conn.GetClientID() = 0 -> "client not authenticated"
   /\ CASE p.cred \in {"idOnly", "otherId"} ->      \* mapping id, empty secret: conncode.ValidateMapping
             MExists(m) /\ MValid(m) /\ IsListen(p.id, m)
        [] p.cred \in {"rightSecret", "otherSecret"} ->  \* secret branch: party of the mapping + equal secret
@@ -108,9 +123,12 @@ Validate(p) ==
 \* ------------------------------------------------------------------------------------------
 \* ghost: the property's predicate.  tm = mapping of the tunnel the request joins (None: it
 \* would create the tunnel, which then belongs to the mapping it presents)
+\* the identities "listen" / "target" are M's parties only if M has such a party
+ListenOf(p) == p.id = "listen" /\ cell.shape # "noListen"
+TargetOf(p) == p.id = "target" /\ cell.shape # "noTarget"
 EntM(p) == /\ Authd(p.id) /\ mst = "active"
-           /\ \/ p.id = "listen" /\ p.cred \in {"idOnly", "rightSecret", "wrongSecret", "resume"}  \* presents the mapping id
-              \/ p.id \in {"listen", "target"} /\ p.cred = "rightSecret"                         \* presents the secret
+           /\ \/ ListenOf(p) /\ p.cred \in {"idOnly", "rightSecret", "wrongSecret", "resume"}  \* presents the mapping id
+              \/ (ListenOf(p) \/ TargetOf(p)) /\ p.cred = "rightSecret"                        \* presents the secret
 Entitled(p, tm) == IF p.cred = "otherId" THEN p.id = "stranger" /\ tm \in {None, "M2"}
                    ELSE IF p.cred = "otherSecret" THEN p.id = "stranger" /\ tm \in {None, "M3"}
                    ELSE EntM(p) /\ tm \in {None, "M"}
@@ -134,8 +152,11 @@ Running == pc <= Len(Script(cell))
 
 \* the late classes are "request first" by construction, and the tunnel can only appear late if
 \* its mapping is active (the legitimate source is refused otherwise: that is the "none" state)
-Init == /\ cell \in [id : Idents, cred : Creds, ms : MStates, ts : TStates, ord : Orders]
+\* a mapping without a listen client has no legitimate client source: its cells are the requester
+\* alone against the validation (which runs on every branch)
+Init == /\ cell \in [id : Idents, cred : Creds, ms : MStates, ts : TStates, ord : Orders, shape : Shapes]
         /\ cell.ts \in Late => (cell.ord = "reqFirst" /\ cell.ms = "active")
+        /\ cell.shape # "std" => (cell.ts = "none" /\ cell.ord = "legitFirst")
         /\ poll = None
         /\ pc = 1 /\ mst = "active" /\ br = NoBridge
         /\ ack = [w \in Who |-> "none"] /\ att = [w \in Who |-> "none"]
